@@ -79,13 +79,14 @@ func (e *env) judge(sc *scene, c cfg, tag string) outcome {
 	r.Eval(1)
 	e.cnt.add(sc.Kind+".cases", 1)
 	t := e.tables(c.Version, sc.Kind)
-	sel, unknown := t.selection(c.Use, c.Except)
-	ioMap, unknown2 := t.ignoreOnly(c.IgnoreOnly)
+	mc := c.model() // what the model evaluates (differs from c only for an empty module-level section)
+	sel, unknown := t.selection(mc.Use, mc.Except)
+	ioMap, unknown2 := t.ignoreOnly(mc.IgnoreOnly)
 	unknown = append(unknown, unknown2...)
 	obs := e.observe(c, sc.Image, sc.Against)
 	out := outcome{C: c, Obs: obs, Selected: sel}
 	vc := func(exp, got []string, detail string) violationCase {
-		return violationCase{Oracle: "judge", Config: c, YAML: c.yaml(), Comments: sc.Src.Comments, Sources: sc.Sources, Expected: exp, Observed: got, Detail: detail}
+		return violationCase{Oracle: "judge", Config: c, YAML: c.yaml(), Comments: sc.Src.Comments, Sources: sc.Sources, Expected: exp, Observed: got, Detail: detail, MapSeed: e.mapSeedPtr()}
 	}
 	if obs.ParseErr != "" {
 		r.Violate(sc.Kind+"/config-rejected-by-parser", "buf.yaml of known IDs and in-module paths was rejected: "+obs.ParseErr, vc(nil, nil, obs.ParseErr))
@@ -112,7 +113,7 @@ func (e *env) judge(sc *scene, c cfg, tag string) outcome {
 	reasons := map[string]suppression{}
 	unspecified := map[string]bool{}
 	firing := 0
-	withoutExcept, _ := t.selection(c.Use, nil)
+	withoutExcept, _ := t.selection(mc.Use, nil)
 	exceptRemoved := false
 	for id := range withoutExcept {
 		if !sel[id] && len(single[id]) > 0 {
@@ -129,7 +130,7 @@ func (e *env) judge(sc *scene, c cfg, tag string) outcome {
 			firing++
 		}
 		for _, a := range anns {
-			s := suppressed(c, a, ioMap, sc.Src)
+			s := suppressed(mc, a, ioMap, sc.Src)
 			switch s.Why {
 			case "":
 				expected[annKey(a)] = a
@@ -178,9 +179,22 @@ func (e *env) judge(sc *scene, c cfg, tag string) outcome {
 				if s.Relation != "" {
 					cause += "/" + s.Relation
 				}
+				if s.Why == "ignore_only" {
+					// two or more keys of the map stand for the rule of the annotation: name their roles
+					var covering []string
+					for _, e := range mc.IgnoreOnly {
+						if x, ok := t.expand(e.ID); ok && x[a.Type] {
+							covering = append(covering, t.classify(e.ID))
+						}
+					}
+					if len(covering) >= 2 {
+						sort.Strings(covering)
+						cause += "/overlapping-keys/" + strings.Join(covering, "+")
+					}
+				}
 			} else if !sel[a.Type] {
 				cause = "unselected-rule-reported"
-				for _, ex := range c.Except {
+				for _, ex := range mc.Except {
 					if s, ok := t.expand(ex); ok && s[a.Type] && withoutExcept[a.Type] {
 						cause = "except-not-applied/" + t.classify(ex)
 					}
@@ -190,7 +204,7 @@ func (e *env) judge(sc *scene, c cfg, tag string) outcome {
 			what = "reported but not in the model result: " + extra[0]
 		} else {
 			a := expected[missing[0]]
-			cause := explainMissing(c, a, ioMap, sc.Src, t, out.ObsSet)
+			cause := explainMissing(mc, a, ioMap, sc.Src, t, out.ObsSet)
 			sig = sc.Kind + "/union-minus/missing/" + cause
 			what = "in the model result but not reported: " + missing[0]
 		}
@@ -207,6 +221,21 @@ func (e *env) judge(sc *scene, c cfg, tag string) outcome {
 		counts[s.Why]++
 		if s.Why == "comment" {
 			counts["comment/"+s.Relation]++
+		}
+		if s.Relation == "against-file" {
+			counts[s.Why+"/against-file"]++
+		}
+	}
+	for _, why := range []string{"ignore", "ignore_only", "import"} {
+		if counts[why+"/against-file"] > 0 {
+			// suppressed although the current file of the annotation is not in scope: only the against file is
+			e.cnt.add(sc.Kind+".against_file_only_"+why+"_removed_annotation", 1)
+		}
+	}
+	for _, a := range obs.Anns {
+		if sc.Kind == "breaking" && a.Path == "" {
+			e.cnt.add("breaking.annotation_without_current_file_reported", 1)
+			break
 		}
 	}
 	if exceptRemoved {
@@ -266,21 +295,23 @@ func (e *env) judge(sc *scene, c cfg, tag string) outcome {
 // explainMissing names the structural reason why an annotation the model keeps may have been dropped.
 func explainMissing(c cfg, a bufx.Annotation, ioMap map[string][]string, src *source, t *tables, observed map[string]bufx.Annotation) string {
 	// path-based explanations first: they are tied to the configuration, not to the image
-	wp := c.workspacePath(a.Path)
-	for rule, paths := range ioMap {
-		if rule != a.Type && underAny(wp, paths) {
-			return "ignore_only-applied-to-other-rule"
+	for _, f := range src.filesOf(a) {
+		wp := c.workspacePath(f.Path)
+		for rule, paths := range ioMap {
+			if rule != a.Type && underAny(wp, paths) {
+				return "ignore_only-applied-to-other-rule"
+			}
 		}
-	}
-	for _, p := range c.Ignore {
-		if strings.HasPrefix(wp, refNormalize(p)) {
-			return "ignore-path/string-prefix-match"
+		for _, p := range c.Ignore {
+			if strings.HasPrefix(wp, refNormalize(p)) {
+				return "ignore-path/string-prefix-match"
+			}
 		}
-	}
-	for _, e := range c.IgnoreOnly {
-		for _, p := range e.Paths {
-			if s, ok := t.expand(e.ID); ok && s[a.Type] && strings.HasPrefix(wp, refNormalize(p)) {
-				return "ignore_only-path/string-prefix-match"
+		for _, e := range c.IgnoreOnly {
+			for _, p := range e.Paths {
+				if s, ok := t.expand(e.ID); ok && s[a.Type] && strings.HasPrefix(wp, refNormalize(p)) {
+					return "ignore_only-path/string-prefix-match"
+				}
 			}
 		}
 	}
@@ -319,7 +350,7 @@ func explainMissing(c cfg, a bufx.Annotation, ioMap map[string][]string, src *so
 	if why := ruleSilent(c, a, t, observed); why != "" {
 		return why
 	}
-	if src.Imports[a.Path] {
+	if src.annOnImport(a) {
 		return "import-file-dropped-without-exclude-imports"
 	}
 	return "unexplained/" + t.classify(a.Type)
@@ -355,7 +386,7 @@ func (e *env) monotone(sc *scene, base, with outcome, kind string, inScope func(
 	for k, a := range with.ObsSet {
 		if _, ok := base.ObsSet[k]; !ok {
 			e.r.Violate("mono/"+sc.Kind+"/"+kind+"/adds-annotation", "adding a suppression added an annotation: "+annKey(a),
-				violationCase{Oracle: "mono", Config: with.C, YAML: with.C.yaml() + "--- without:\n" + base.C.yaml(), Comments: sc.Src.Comments, Sources: sc.Sources, Detail: k})
+				violationCase{Oracle: "mono", Config: with.C, YAML: with.C.yaml() + "--- without:\n" + base.C.yaml(), Comments: sc.Src.Comments, Sources: sc.Sources, Detail: k, MapSeed: e.mapSeedPtr()})
 			return
 		}
 	}
@@ -373,7 +404,7 @@ func (e *env) monotone(sc *scene, base, with outcome, kind string, inScope func(
 				}
 			}
 			e.r.Violate("mono/"+sc.Kind+"/"+kind+"/removes-outside-scope"+detail, "a suppression removed an annotation outside its scope: "+annKey(a),
-				violationCase{Oracle: "mono", Config: with.C, YAML: with.C.yaml() + "--- without:\n" + base.C.yaml(), Comments: sc.Src.Comments, Sources: sc.Sources, Detail: k})
+				violationCase{Oracle: "mono", Config: with.C, YAML: with.C.yaml() + "--- without:\n" + base.C.yaml(), Comments: sc.Src.Comments, Sources: sc.Sources, Detail: k, MapSeed: e.mapSeedPtr()})
 			return
 		}
 	}
@@ -603,13 +634,13 @@ func (e *env) exploreGrid(sc *scene, versions []string, menuOf func(string) menu
 					if len(co.Ignore) > 0 {
 						if base, ok := res[key(ex, suppressionCombo{nil, co.IgnoreOnly}, xi)]; ok {
 							paths := co.Ignore
-							e.monotone(sc, base, with, "ignore", func(a bufx.Annotation) bool { return underAny(a.Path, paths) })
+							e.monotone(sc, base, with, "ignore", func(a bufx.Annotation) bool { return sc.Src.annUnderAny(with.C, a, paths) })
 						}
 					}
 					if len(co.IgnoreOnly) > 0 {
 						if base, ok := res[key(ex, suppressionCombo{co.Ignore, nil}, xi)]; ok {
 							ioMap, _ := t.ignoreOnly(co.IgnoreOnly)
-							e.monotone(sc, base, with, "ignore_only", func(a bufx.Annotation) bool { return underAny(a.Path, ioMap[a.Type]) })
+							e.monotone(sc, base, with, "ignore_only", func(a bufx.Annotation) bool { return sc.Src.annUnderAny(with.C, a, ioMap[a.Type]) })
 						}
 					}
 					if len(ex) > 0 {
@@ -626,7 +657,7 @@ func (e *env) exploreGrid(sc *scene, versions []string, menuOf func(string) menu
 					}
 					if xi {
 						if base, ok := res[key(ex, co, false)]; ok {
-							e.monotone(sc, base, with, "exclude-imports", func(a bufx.Annotation) bool { return sc.Src.Imports[a.Path] })
+							e.monotone(sc, base, with, "exclude-imports", func(a bufx.Annotation) bool { return sc.Src.annOnImport(a) })
 						}
 					}
 				}
@@ -864,7 +895,12 @@ func (e *env) commentCoverage(sc *scene, placement, tok string, on, off, dflt ou
 
 func (e *env) breakingScene(versions []string) (*scene, bool) {
 	old, new := breakingFixture()
-	oldImage, _, err := buildPlain(e.ctx, old, lintTargets)
+	moved, err := locateMoved(old, new)
+	if err != nil {
+		e.r.Incomplete("breaking fixture: " + err.Error())
+		return nil, false
+	}
+	oldImage, oldImports, err := buildPlain(e.ctx, old, lintTargets)
 	if err != nil {
 		e.r.Incomplete("breaking fixture (old) does not build: " + err.Error())
 		return nil, false
@@ -874,8 +910,17 @@ func (e *env) breakingScene(versions []string) (*scene, bool) {
 		e.r.Incomplete("breaking fixture (new) does not build: " + err.Error())
 		return nil, false
 	}
-	if imports["a/v1/x.proto"] || imports["b/v1/y.proto"] || !imports["c/v1/z.proto"] {
+	if imports["a/v1/x.proto"] || imports["b/v1/y.proto"] || !imports["c/v1/z.proto"] || !imports["c/v1/bm.proto"] || imports["b/v1/m.proto"] ||
+		imports["a/v1/zm.proto"] || imports["a/v1/svc.proto"] || imports["a/v1/x2.proto"] {
 		e.r.Incomplete(fmt.Sprintf("breaking fixture: unexpected import flags %v", imports))
+		return nil, false
+	}
+	if oldImports["a/v1/x.proto"] || oldImports["b/v1/y.proto"] || !oldImports["c/v1/z.proto"] || oldImports[breakingDeletedFile] {
+		e.r.Incomplete(fmt.Sprintf("breaking fixture: unexpected import flags in the old image %v", oldImports))
+		return nil, false
+	}
+	if _, ok := imports[breakingDeletedFile]; ok {
+		e.r.Incomplete("breaking fixture: the deleted file is in the new image")
 		return nil, false
 	}
 	sources := map[string]string{}
@@ -885,7 +930,8 @@ func (e *env) breakingScene(versions []string) (*scene, bool) {
 	for p, s := range new {
 		sources["new/"+p] = s
 	}
-	sc := &scene{Kind: "breaking", Image: newImage, Against: oldImage, Src: &source{Imports: imports}, Sources: sources}
+	sc := &scene{Kind: "breaking", Image: newImage, Against: oldImage, Sources: sources,
+		Src: &source{Imports: imports, AgainstImports: oldImports, Moved: moved, DeletedFile: breakingDeletedFile}}
 	if !e.singletons(sc, versions, nil) {
 		return nil, false
 	}
